@@ -57,11 +57,15 @@ fn main() {
     ctx.rng = coset_verif_harness::gen::Rng(arg("--seed").and_then(|s| s.parse().ok()).unwrap_or(1));
     let stdin = std::io::stdin();
     let mut bad_lines = 0u64;
+    // a time-bounded TLC run is stopped from outside and may leave its last line cut off: with --allow-cut a bad FINAL line is not an error
+    let allow_cut = std::env::args().any(|a| a == "--allow-cut");
+    let mut last_bad = false;
     for line in stdin.lock().lines() {
         let line = match line {
             Ok(l) => l,
             Err(_) => continue,
         };
+        let before = bad_lines;
         if line.starts_with("\"{") {
             // a TLA+ string literal holding JSON: unescape, then parse
             match serde_json::from_str::<String>(&line).ok().and_then(|s| serde_json::from_str::<serde_json::Value>(&s).ok()) {
@@ -76,6 +80,10 @@ fn main() {
         } else if let Some(f) = tlc_log.as_mut() {
             let _ = writeln!(f, "{}", line);
         }
+        last_bad = bad_lines > before;
+    }
+    if allow_cut && last_bad {
+        bad_lines -= 1;
     }
     let mut s = ctx.summary();
     s["bad_lines"] = serde_json::json!(bad_lines);
